@@ -416,8 +416,10 @@ class Session:
         cont = self.container_of(owner, kind)
         # lookup by iteration (robust against name/id dispatch problems, which are C03's business and
         # probed there explicitly)
+        want_name = None if kind == "feature" else self.conc.name(name)
         for cand in cont:
-            if cand.id == self.uuid[num]:
+            # id and name: after a copy that keeps the ids two entities of one container can share an id
+            if cand.id == self.uuid[num] and (want_name is None or cand.name == want_name):
                 if which == "B":
                     self.handles_b[num] = cand
                 return cand
@@ -425,13 +427,18 @@ class Session:
 
     uuid = None
 
-    def remember(self, num, handle, kind, owner, name):
+    eidnum = None
+
+    def remember(self, num, handle, kind, owner, name, eid=None):
         if self.uuid is None:
             self.uuid = {}
+        if self.eidnum is None:
+            self.eidnum = {}
         self.handles[num] = handle
         self.meta[num] = (kind, owner, name)
         self.uuid[num] = handle.id
-        self.reg.bind(handle.id, "e%d" % num)
+        self.eidnum[num] = num if eid is None else eid
+        self.reg.bind(handle.id, "e%d" % self.eidnum[num])
 
     def forget(self, alive):
         for num in list(self.handles):
@@ -578,6 +585,26 @@ class Session:
                 kind, owner, _ = self.meta[num]
                 cont = self.container_of(owner, kind)
                 self._del(cont, self.obj(num))
+            elif name == "Copy":
+                k = act["kind"]
+                src = self.obj(act["src"])
+                dest = self.nf if act["dest"] == 0 else self.obj(act["dest"])
+                nm_, keep = self.conc.name(act["n"]), act["keep"]
+                if k == "block":
+                    ret = dest.create_block(name=nm_, copy_from=src, keep_copy_id=keep)
+                elif k == "array":
+                    ret = dest.create_data_array(name=nm_, copy_from=src, keep_copy_id=keep)
+                elif k == "tag":
+                    ret = dest.create_tag(name=nm_, copy_from=src, keep_copy_id=keep)
+                elif k == "mtag":
+                    ret = dest.create_multi_tag(name=nm_, copy_from=src, keep_copy_id=keep)
+                elif k == "section":
+                    ret = dest.copy_section(src, children=True, keep_id=keep, name=nm_)
+                elif k == "property":
+                    ret = dest.create_property(name=nm_, copy_from=src, keep_copy_id=keep)
+                else:
+                    raise core.MachineryError("Copy of kind %s" % k)
+                self.bind_copy(act, ret)
             elif name == "DeleteAbsent":
                 cont = self.container_of(act["owner"], act["kind"])
                 choice = self.rnd.randrange(3)
@@ -594,6 +621,50 @@ class Session:
         except Exception as exc:  # noqa
             return Outcome(False, exc)
         return Outcome(True)
+
+    def _reachable(self, num):
+        try:
+            self.obj(num, fresh=True)
+            return True
+        except Exception:  # noqa
+            return False
+
+    def bind_copy(self, act, returned):
+        """Registers the objects a successful copy created: same order as the specification numbers them."""
+        src = act["src"]
+
+        def in_sub(x):
+            while x != 0:
+                if x == src:
+                    return True
+                x = self.meta[x][1]
+            return False
+        sub = sorted(x for x in self.meta if in_sub(x) and x < act["new"] and self._reachable(x))
+        newnum = {x: act["new"] + i for i, x in enumerate(sub)}
+        self.copy_returned = None
+        for x in sub:
+            kind, owner, nametok = self.meta[x]
+            nowner = act["dest"] if x == src else newnum[owner]
+            nname = act["n"] if x == src else nametok
+            cont = self.container_of(nowner, kind)
+            if kind == "feature":
+                sibs = [y for y in sub if self.meta[y][0] == "feature" and self.meta[y][1] == owner]
+                handle = cont[sibs.index(x)]
+            else:
+                want = self.conc.name(nname)
+                cands = [m for m in cont if m.name == want]
+                if len(cands) != 1:
+                    raise KeyError("copy of spec object %d (%s %r) not found in its container" % (x, kind, want[:30]))
+                handle = cands[0]
+            eid = self.eidnum.get(x, x) if act["keep"] else None
+            self.remember(newnum[x], handle, kind, nowner, nname, eid=eid)
+            if x == src:
+                # the handle the call returned must denote the copy
+                try:
+                    self.copy_returned = (returned is not None and returned.id == handle.id
+                                          and getattr(returned, "name", None) == getattr(handle, "name", None))
+                except Exception:  # noqa
+                    self.copy_returned = False
 
     def _del(self, cont, handle, linklist=False):
         how = self.rnd.randrange(5)
